@@ -82,7 +82,7 @@ func CopyHeaders(proxyReq, originalReq *http.Request) {
 
 	// SHERPA-44: Ensure X-Real-IP header is set
 	// Add real IP tracking headers
-	if realIP := originalReq.Header.Get(constants.HeaderXRealIP); realIP == "" {
+	if !hasHeaderValue(originalReq.Header, constants.HeaderXRealIP) {
 		if ip := extractClientIP(originalReq); ip != "" {
 			proxyReq.Header.Set(constants.HeaderXRealIP, ip)
 		}
@@ -108,7 +108,7 @@ func updateForwardedHeaders(proxyReq, originalReq *http.Request) {
 	}
 
 	// X-Forwarded-Proto
-	if proto := originalReq.Header.Get(constants.HeaderXForwardedProto); proto == "" {
+	if !hasHeaderValue(originalReq.Header, constants.HeaderXForwardedProto) {
 		if originalReq.TLS != nil {
 			proxyReq.Header.Set(constants.HeaderXForwardedProto, constants.ProtocolHTTPS)
 		} else {
@@ -117,9 +117,21 @@ func updateForwardedHeaders(proxyReq, originalReq *http.Request) {
 	}
 
 	// X-Forwarded-Host
-	if host := originalReq.Header.Get(constants.HeaderXForwardedHost); host == "" && originalReq.Host != "" {
+	if !hasHeaderValue(originalReq.Header, constants.HeaderXForwardedHost) && originalReq.Host != "" {
 		proxyReq.Header.Set(constants.HeaderXForwardedHost, originalReq.Host)
 	}
+}
+
+// hasHeaderValue reports whether any line of the header carries a value. Header.Get looks at the
+// first line only: a front proxy that emits an empty line first would have its real value,
+// on a later line, overwritten.
+func hasHeaderValue(h http.Header, name string) bool {
+	for _, v := range h.Values(name) {
+		if strings.TrimSpace(v) != "" {
+			return true
+		}
+	}
+	return false
 }
 
 var hopByHopHeaders = []string{
